@@ -1,5 +1,6 @@
 import Driver.States
 import Driver.AgentCause
+import Driver.Wait
 open Lean
 
 /-- line protocol: one JSON op per input line, one canonical JSON answer per line -/
@@ -15,5 +16,6 @@ def main (args : List String) : IO UInt32 := do
   let stdin ← IO.getStdin
   match args with
   | ["states"] => loop stdin Driver.States.handle; return 0
+  | ["wait"] => loop stdin Driver.Wait.handle; return 0
   | ["cause"] => loop stdin Driver.AgentCause.handle; return 0
   | _ => IO.eprintln "usage: rpmodel <suite>"; return 2
